@@ -4,7 +4,8 @@ import re
 from . import build
 
 DOC_EXITS = {"asl": {0, 1, 2, 3, 4, 255}}
-for _p in ("plist", "pbind", "p2bin", "p2hex", "alink", "dasl"):
+DOC_EXITS["dasl"] = {0, 1, 2, 3, 4, 255}  # undocumented tool; follows the assembler's convention (4 = parameter error)
+for _p in ("plist", "pbind", "p2bin", "p2hex", "alink"):
     DOC_EXITS[_p] = {0, 1, 2, 3}
 
 _FRAME = re.compile(rb"#\d+ 0x[0-9a-f]+ in (\S+) (\S+?):(\d+)")
@@ -13,7 +14,7 @@ _KIND = re.compile(rb"ERROR: AddressSanitizer: (\S+)")
 
 def asan_signature(san):
     """(bug type, function) of the innermost frame inside the repository, or None."""
-    if b"AddressSanitizer" not in san:
+    if b"ERROR: AddressSanitizer" not in san:
         return None
     m = _KIND.search(san)
     kind = m.group(1).decode() if m else "unknown"
